@@ -11,6 +11,7 @@ func init() {
 		Title:       "Bounds is the tight bounding box and FastBounds contains it",
 		Explanation: "Decides, for every path, the structural clauses of Bounds/FastBounds/Rect hulls: each accumulator returned as a low (high) side is only ever updated by math.Min (math.Max) folds that include itself; no fold nests the opposite operator; Bounds folds every segment end point into all four sides unconditionally; FastBounds folds every decoded control/end point into all four sides with min/max and X/Y candidate sets mirrored (arc: centre∓max(rx,ry)); Rect.Transform/Add/AddPoint hulls are pure and complete. A violated clause makes the box exclude a point of the path for some input. NOT decided: which Bézier/arc extrema are computed (root finding, angle tests), tightness, equivariance.",
 		Run: func(c *core.Ctx, r *core.Report) {
+			E11AngleRangeNormalised(c, r)
 			E2CarriedShadow(c, r)
 			E3ArcShortcut(c, r)
 			E3BoundingBoxes(c, r)
@@ -156,6 +157,7 @@ func init() {
 		Run: func(c *core.Ctx, r *core.Report) {
 			E4RunningTotalsFixed(c, r)
 			E4NextToleranceRecorded(c, r)
+			E4ClassRecordsTogether(c, r)
 			E4ZeroGuardIsDivisor(c, r, "text")
 			E4ForcedBreakForgets(c, r)
 			E11SumNotOverwritten(c, r)
@@ -372,6 +374,7 @@ func init() {
 		Explanation: "Decides three structural clauses: (1) 'the glyph subsetter assigns each used glyph one stable code with .notdef at zero' — the constructor and Get/List have exactly the hit/miss/append shape, and the PDF writer creates a font's subsetter only when the font has none (a second writing direction must not reset the codes already written); (2) fonts used for vertical text are kept in their own map and written with the matching vertical flag (Identity-V vs Identity-H), every font map that reserves an object is written in Close, and every Tf operand names a font registered in the page's resources (E5 font-map and resource rules). (3) the ToUnicode grouping loop keeps `start+length` equal to the visited code (E11.run-covers-codes). NOT decided: outlines, advances, the W array contents, the characters the ToUnicode map names, glyph placement in toPath.",
 		Run: func(c *core.Ctx, r *core.Report) {
 			E11PenAdvancesOnly(c, r)
+			E5GlyphStringEscapes(c, r)
 			E6MemoStoresCompared(c, r)
 			E11AdvanceAxis(c, r)
 			E11Subsetter(c, r)
@@ -392,6 +395,7 @@ func init() {
 			E11SVGKeywordInitial(c, r)
 			E11EmptyValueAccepted(c, r)
 			E11ViewBoxSeparators(c, r)
+			E11ViewBoxInOneMatrix(c, r)
 			E11HexDigitPairs(c, r)
 			E11SVGVocabulary(c, r)
 			E11WordListMatch(c, r)
@@ -468,6 +472,7 @@ func init() {
 		Assumptions: []string{"sync, sync/atomic behave as documented", "the API set is the one listed in DESIGN.md §3 C20"},
 		Run: func(c *core.Ctx, r *core.Report) {
 			E7FaceWithoutCache(c, r)
+			E7PoolPutEscapes(c, r)
 			E7MemoKey(c, r)
 			E7Globals(c, r)
 			E7GlobalEscape(c, r)
